@@ -3,6 +3,8 @@
 From AV Require Import Base.Bytes Base.Outcome Hash.HashModel Tree.Heap Tree.Ops Tree.Script Tree.Inv Tree.InvProofs
   Tree.Index Tree.Refs Spec.SpecReal Tree.CheckFn Tree.IndexProofsTablesReal Tree.IndexProofsClosed
   Tree.Follow Tree.FollowProofsRename Tree.FollowProofsMove Tree.FollowProofsContainer Tree.FollowProofsCross Tree.FollowProofsAll.
+From AV Require Import Tree.Script2 Tree.IndexProofsAll Tree.IndexProofsNodeInv Tree.IndexProofsOp2 Tree.IndexProofsSortReal Tree.InvProofsRealTables
+  Tree.RefsAll Tree.Copy Tree.FollowProofsOp2.
 Open Scope list_scope.
 Open Scope N_scope.
 
@@ -27,3 +29,41 @@ Theorem history_real (dfas : N -> option (list (list N) * list N)) (tab_el tab_e
      (exists m, model_of h w = Val (OK m, w) /\ model_of mv w = Val (OK m, w) /\
                 identifiable RT w mv = false /\ collision06 RT w h mv = true)).
 Proof. apply C06_history_m. apply real_tables_ok. Qed.
+
+(* ---------- the extended alphabet on the generated tables: TablesOK, the root type, MaskOk and RefChars are all [F] *)
+Section Real2.
+Variable dfas : N -> option (list (list N) * list N).
+Variable tab_el tab_at tab_en : nametab.
+Variable float_parse : list N -> option N.
+Variable float_fmt : N -> list N.
+Variable LATEST name_index name_definition_ref attr_schema_location : N.
+Variable root_attrs : list (N * cdata).
+
+Theorem history2_real l w o v w' :
+  steps06_2 RT tab_el tab_at tab_en (check_fn_model dfas) float_parse float_fmt LATEST name_index name_definition_ref
+            attr_schema_location root_attrs l empty_world ->
+  run_hist2 RT tab_el tab_at tab_en (check_fn_model dfas) float_parse float_fmt LATEST name_index name_definition_ref
+            attr_schema_location root_attrs l empty_world = Val w ->
+  run_op RT tab_el tab_en (check_fn_model dfas) LATEST root_attrs o w = Val (OK v, w') ->
+  (forall h nn, o = OpSetItemName h nn -> rename_clauses RT w w' h) /\
+  (forall h mv, (o = OpMove h mv \/ exists pos, o = OpMoveAt h mv pos) ->
+     move_clauses RT w w' h mv \/
+     (exists m, model_of h w = Val (OK m, w) /\ model_of mv w = Val (OK m, w) /\
+                identifiable RT w mv = false /\ collision06 RT w h mv = true)).
+Proof. apply C06_after_history2; [apply real_tables_ok|exact real_root_plain|exact RefChars_real|exact real_mask_ok]. Qed.
+
+Theorem duplicate_refs_real m w c w' :
+  TreeInv w -> Inv06 RT (check_fn_model dfas) w -> RX RT w ->
+  dup_clean RT tab_el tab_en (check_fn_model dfas) LATEST root_attrs w m = true ->
+  m_duplicate RT tab_el tab_en (check_fn_model dfas) LATEST root_attrs m w = Val (OK c, w') ->
+  Inv06 RT (check_fn_model dfas) w' /\ TreeInv w' /\ RX RT w' /\
+  (forall m0 r, live_ref RT w m0 r -> live_ref RT w' m0 r) /\
+  (forall r p, ref_text RT w r = Some p -> ref_text RT w' r = Some p) /\
+  (forall m0 r x, designates RT w m0 r x -> designates RT w' m0 r x) /\
+  (forall r' x', live_ref RT w' c r' -> designates RT w' c r' x' ->
+     live_ref RT w' c x' /\ w_next w <= x' /\ exists p, ref_text RT w' r' = Some p /\ SpecPath RT w' c x' p) /\
+  (forall r x r' x' p, ref_text RT w r = Some p -> ref_text RT w' r' = Some p ->
+     designates RT w m r x -> designates RT w' c r' x' -> SpecPath RT w m x p /\ SpecPath RT w' c x' p /\ x < w_next w <= x').
+Proof. apply C06_duplicate_refs; [apply real_tables_ok|exact real_root_plain]. Qed.
+
+End Real2.
